@@ -364,6 +364,7 @@ class PoolProp:
         proofs = core.check_proofs(self.pid, leanchecker=(tier == "thorough"))
         n = self.quick_runs if tier == "quick" else self.thorough_runs
         n *= core.budget_scale(self.anchors, tier, report)
+        n = core.budget_div(n)
 
         runs = [(cfg, desc, ch, label) for cfg, desc, ch, label in self.corpus()]
         for _ in range(n):
